@@ -26,7 +26,11 @@ TC07 == /\ Ev.e = "c07" /\ ~Ev.panic
 TKind == /\ Ev.e = "kind" /\ ~Ev.panic /\ Ev.reparse_ok
          /\ Len(Ev.kinds) = Ev.n /\ Cardinality({Ev.kinds[i] : i \in DOMAIN Ev.kinds}) = Ev.n
          /\ Ev.meaning = (IF Ev.n = 1 THEN "single" ELSE IF Ev.exclusive THEN "allof" ELSE "anyof")
-TNext == l <= Len(TraceLog) /\ (TC10 \/ TC07 \/ TKind) /\ l' = l + 1
+\* whole queries: whatever the builder accepted parses back to the descriptor it was built from (returned items, DISTINCT,
+\* ORDER BY keys and directions, SKIP / LIMIT values, updating clauses in order, node or relationship query)
+TC10Q == /\ Ev.e = "c10q" /\ ~Ev.panic
+         /\ Ev.built => (Ev.reparse_ok /\ Ev.note = "" /\ Ev.parsed = Ev.expected)
+TNext == l <= Len(TraceLog) /\ (TC10 \/ TC07 \/ TKind \/ TC10Q) /\ l' = l + 1
 TSpec == TInit /\ [][TNext]_l
 HW == TLCSet(1, IF l > TLCGet(1) THEN l ELSE TLCGet(1))
 Accepted == IF TLCGet(1) = Len(TraceLog) + 1 THEN TRUE ELSE PrintT(<<"STUCK_AT_LINE", TLCGet(1)>>) /\ FALSE
